@@ -7,6 +7,7 @@ import (
 	"encoding/json"
 	"flag"
 	"fmt"
+	"hash/fnv"
 	"os"
 	"strings"
 
@@ -113,6 +114,11 @@ func main() {
 	}
 	entries := strings.Split(*entriesF, ",")
 	stats := world.NewStats()
+	var execLog *os.File
+	if pfx := os.Getenv("VERIF_EXECLOG"); pfx != "" {
+		execLog, _ = os.OpenFile(pfx+"."+strings.ReplaceAll(*shard, "/", "_"), os.O_CREATE|os.O_APPEND|os.O_WRONLY, 0644)
+		defer execLog.Close()
+	}
 	sc := bufio.NewScanner(f)
 	sc.Buffer(make([]byte, 1<<20), 1<<28)
 	idx := -1
@@ -134,6 +140,11 @@ func main() {
 		}
 		c.Normalize()
 		stats.Cases++
+		// the rotations pick by the CONTENT of the behaviour, not by its position in TLC's output (which depends
+		// on the scheduling of TLC's workers): the same tree, seed and tier replay the same executions
+		hh := fnv.New32a()
+		hh.Write(line)
+		ridx := int(hh.Sum32() & 0x3fffffff)
 		if len(samples) < 2 && len(c.Steps) >= 2 {
 			samples = append(samples, append(json.RawMessage{}, line...))
 		}
@@ -141,7 +152,7 @@ func main() {
 		if *rotate > 0 && *rotate < len(dtl) {
 			use = nil
 			for k := 0; k < *rotate; k++ {
-				use = append(use, dtl[(idx+*seed+k*5)%len(dtl)])
+				use = append(use, dtl[(ridx+*seed+k*5)%len(dtl)])
 			}
 		}
 		subs := []string{""}
@@ -174,7 +185,7 @@ func main() {
 			if *opRotate > 0 && *opRotate < len(subs) {
 				var pick []string
 				for k := 0; k < *opRotate; k++ {
-					pick = append(pick, subs[(idx*3+*seed+k*3)%len(subs)])
+					pick = append(pick, subs[(ridx*3+*seed+k*3)%len(subs)])
 				}
 				subs = pick
 			}
@@ -183,7 +194,7 @@ func main() {
 		if *palRotate > 0 && *palRotate < len(pall) {
 			usePal = nil
 			for k := 0; k < *palRotate; k++ {
-				usePal = append(usePal, pall[(idx+*seed+k)%len(pall)])
+				usePal = append(usePal, pall[(ridx+*seed+k)%len(pall)])
 			}
 		}
 		for di, d := range use {
@@ -192,9 +203,13 @@ func main() {
 			}
 			for pi, p := range usePal {
 				for si, sub := range subs {
-					entry := entries[(idx+di+pi+si)%len(entries)]
+					entry := entries[(ridx+di+pi+si)%len(entries)]
 					cfg := world.Config{D: d, Pal: p, Engine: *engine, Name: *cfgName, Calc: *calc, Sub: sub, Entry: entry}
 					dv, oc := world.Run(&c, cfg, stats)
+					if execLog != nil {
+						// analysis aid (VERIF_EXECLOG=<prefix>): one line per execution with its outcome
+						fmt.Fprintf(execLog, "%d\t%s\t%s\t%s\t%s\t%s\n", oc, d.Name, p.Name, sub, entry, c.PathString())
+					}
 					if oc == world.Passed && len(c.Steps) > 1 {
 						stats.Nontrivial++
 					}
